@@ -190,7 +190,7 @@ Definition add_files (t : tree) (li : lineinfo) (m : emap) : res emap :=
 Definition del_matching (pat : bytes) (m : emap) : emap :=
   filter (fun kv => negb (pmatch pat (fst kv))) m.
 Definition remove_files (name : bytes) (wild : bool) (m : emap) : res emap :=
-  if wild then Ok m      (* UNFIXED CODE: looks the matches up with the root prefix attached *)
+  if wild then Ok (del_matching name m)       (* path.Match of the pattern against the member names *)
   else if mem name m then Ok (del name m) else Failed.
 
 (* ---------------------------------------------------------------- add-files lines *)
@@ -403,7 +403,7 @@ Fixpoint before_arrow (s : bytes) (acc : bytes) : option bytes :=
   | c :: r => if fprefix arrow s then Some (rev acc) else before_arrow r (c :: acc)
   end.
 Definition contents_line (line : bytes) : res bytes :=
-  if (N.of_nat (length line) <? 4) then Panic        (* UNFIXED CODE: line[:4] *)
+  if (N.of_nat (length line) <? 4) then Failed       (* "short line" error *)
   else
     let ind := firstn 4 line in
     let tail := skipn 4 line in
@@ -642,7 +642,8 @@ Definition stage_map (i : input) : res emap :=
   let m6 := exclude u m5 in
   bind (run_ops t stddir_ops m6) (fun m7 =>
   let m8 := add_missing_dirs m7 in
-  run_ops t (script_ops (i_script i)) m8)))))))).
+  bind (run_ops t (script_ops (i_script i)) m8) (fun m9 =>
+  Ok (add_missing_dirs m9)))))))))).
 
 (* Names() of the finalized list, and the members MakeTar writes *)
 Definition stage_list (i : input) : res (list member) :=
